@@ -12,7 +12,7 @@ from mc.world import World1, num_in, num_out, journal_rows, conn_key, task_resul
 POOL = [("SRV", "CLI"), ("ACC", "INI"), ("S1", "T1"), ("EXCH", "FIRM")]
 CFG = {"S": "SRV", "T": "CLI", "quick": True}
 
-SENDS = ("app", "hb", "logon", "logout", "tr_direct", "tr_api", "sr_nonum", "sr_num", "pd_copy", "app_grp", "app_pdn", "app_bad", "type_bad")
+SENDS = ("app", "hb", "logon", "logout", "tr_direct", "tr_api", "sr_nonum", "sr_num", "pd_copy", "app_grp", "app_pdn", "app_bad", "type_bad", "type_soh", "type_empty")
 INBOUND = ("logon", "app", "tr", "gap_app", "rr1", "rr2", "gapfill", "logout", "hb")
 
 
@@ -33,6 +33,10 @@ def mk_msg(kind, c, uid):
         return FIXMessage("D", {11: f"b{uid}", 58: "bad \udc80 text"})
     if kind == "type_bad":
         return FIXMessage("U\udcff", {11: f"t{uid}"})  # custom MsgType that is not encodable as utf-8
+    if kind == "type_soh":
+        return FIXMessage("U\x01X", {11: f"s{uid}"})  # MsgType that would break the framing: refused by the encoder
+    if kind == "type_empty":
+        return FIXMessage("", {11: f"e{uid}"})  # no MsgType at all: refused by the encoder
     if kind == "hb":
         return FIXMessage(FMsg.HEARTBEAT)
     if kind == "logon":
@@ -72,6 +76,10 @@ class Sim:
         self.w = World1(role, S=S, T=T, next_out=start_out, next_in=1, journal=Journaler(self.path))
         if len(root) > 5 and root[5] == "discsend":
             self.w.c.send_on_disconnect = True  # the application tries to send from its on_disconnect callback
+        if len(root) > 5 and root[5] == "hookdrop":
+            # the application drops the connection from inside on_state_change(LOGON_INITIAL_SENT): the Logon that is
+            # being sent finds the connection closed when the callback returns and is refused
+            self.w.c.drop_on_state = {"LOGON_INITIAL_SENT"}
         self.ref_next = start_out  # number the next NEW message must carry
         self.sent = {}  # number -> set of bytes written under that number (any kind)
         self.new_numbers = []
@@ -273,7 +281,7 @@ class Sim:
 def roots():
     outs = (1, 7) if CFG["quick"] else (1, 7, 2 ** 31 - 1)
     rs = [(("root", role, so, CFG["S"], CFG["T"]),) for role in ("initiator", "acceptor") for so in outs]
-    return rs + [(("root", "acceptor", 1, CFG["S"], CFG["T"], "discsend"),)]
+    return rs + [(("root", "acceptor", 1, CFG["S"], CFG["T"], "discsend"),), (("root", "initiator", 7, CFG["S"], CFG["T"], "hookdrop"),)]
 
 
 def run(ctx):
